@@ -10,11 +10,16 @@ Tie: (C1) in-process: Model/Split.v `split_file` (extracted) vs the real
      (C2) LineRange::compress_lines/expand and VirtualAttributions::to_authorship_log vs the model.
      (C3) system level: the real binary driven through checkpoints, partial staging, unstaged edits and
           `git commit`; note + INITIAL vs the model's prediction from P, C, W and the ground truth.
+     (C3b) carry family: AI work on 2-3 files (tracked and new untracked) split over 2-4 commits by file
+          and by hunk with unrelated human commits / edits / checkpoints (sometimes an AI checkpoint) in between.
+     (T)  Gen/GenSplit.v regenerated from post_commit.rs / virtual_attribution.rs: the loop that adds the
+          files named by INITIAL to the post-commit pathspecs is unconditional (C04_carry depends on it).
 Oracle (independent of the model): by construction every line has an id and an author; after the
 commit every AI line of C that the commit added must be in the note at its position in C for its
 session, every AI line of W that is not in C must be in INITIAL at its position in W for its session,
 nothing else may be listed; after a second commit of the rest, that commit's note must list exactly
-the carried lines.
+the carried lines; in the carry family every commit's note must list exactly the AI lines that this
+commit is the first to contain (so every AI line is in exactly one note, none twice, none lost).
 """
 import json
 import os
@@ -25,10 +30,11 @@ import subprocess
 from . import common as C
 from .gitsim import Sim, session_hash
 
-GEN_FILES = []
+GEN_FILES = ["GenSplit"]
 DRIVERS = ["split"]
 THEOREMS = ["C04_expand_compress", "C04_compress_wf", "C04_split_no_panic", "C04_split_exact",
             "C04_struct_implies_consistent", "C04_split_exact_insertions", "C04_unkept_line_unrecorded",
+            "C04_carry", "C04_carry_needs_pathspec",
             "C04_deletion_refuted", "C04_modify_refuted", "C04_hidden_refuted",
             "C04_nonvacuous", "C04_nonvacuous_tail"]
 CLAIM = {
@@ -42,11 +48,14 @@ CLAIM = {
             "false (three witnesses) and the excluded inputs are listed known findings.",
     "design_ref": "DESIGN.md §4 C04",
     "note": "Covers the split of one commit and (by test only) the carry to the next commit; sequences of "
-            "commits (C04_once) are not proved here.",
+            "commits (C04_once) are not proved here; C04_carry proves the per-file carry step (pathspec union + "
+            "unchanged claims) and the multi-commit behaviour is tested by the carry family.",
     "technique": "Coq proof over extracted model + differential correspondence in-process and at system level",
 }
 TRUSTED_BASE = [
     "Coq 8.16.1 kernel (coqc); no axioms (Print Assumptions: closed under the global context)",
+    "tools/gen/GenSplit.py (pattern extraction of the INITIAL->pathspecs loop of post_commit and of the "
+    "untracked-file branch of collect_unstaged_hunks)",
     "extraction: ExtrOcamlBasic only (no Extract Constant); OCaml 4.13.1; coq/Extract/d_split.ml",
     "harness/src/p_c04.rs + vlib/c04.py + vlib/gitsim.py (scenario generation, canonicalisation, oracle)",
     "modelled, not verified: git's diff (hunks of `git diff -U0` for files of pairwise distinct lines are "
@@ -745,6 +754,100 @@ def run(ctx):
             n_pass += 1
             if sc_bool:
                 n_sc_sys += 1
+    # ---------- C3b: carry across 2-4 commits by file and by hunk, unrelated commits in between
+    n_carry = 64 if quick else 1500
+    cscen = [corpus_carry()] + [gen_carry(r.fork(f"carry{i}")) for i in range(n_carry)]
+    cres = C.parallel_map(run_carry, [(ctx.scratch, i, s) for i, s in enumerate(cscen)])
+    cspec_in, ckeys = [], []
+    for x in cres:
+        if "error" in x or "skip" in x:
+            continue
+        author = {int(k): v for k, v in x["author"].items()}
+        for j, cm in enumerate(x["commits"]):
+            for f_, cf in cm["after"].items():
+                if f_ in x["final"] and cm["before"].get(f_) != cf:
+                    pf, wf = cm["before"].get(f_, []), x["final"][f_]
+                    attrs = [[i, i, C.cps(session_hash(TOOL, author[y]))] for i, y in enumerate(wf, 1) if author.get(y, "H") != "H"]
+                    key = f"{x['idx']}:{j}:{f_}"
+                    ckeys.append(key)
+                    cspec_in.append((key, " ".join(C.sx(v) for v in [pf, cf, wf, attrs])))
+    cspec = C.run_cases(C.driver_path("split"), "c04-spec", cspec_in) if ctx.model_ok else {}
+    cdist = {"scenarios": 0, "commits": 0, "ai_commits": 0, "unrelated_commits": 0, "ai_checkpoint_between": 0,
+             "new_file_left_out_then_untouched_commit": 0, "skipped": 0}
+    n_carry_pass = 0
+    for x in cres:
+        if "error" in x:
+            violations.append(("engine error (carry)", x))
+            continue
+        if "skip" in x:
+            cdist["skipped"] += 1
+            continue
+        cdist["scenarios"] += 1
+        author = {int(k): v for k, v in x["author"].items()}
+        kinds = [st["kind"] for st in x["scenario"]["steps"]]
+        if "aicommit" in kinds:
+            cdist["ai_checkpoint_between"] += 1
+        fails, classes = [], set()
+        recorded = {}
+        pending_new = set()
+        for j, cm in enumerate(x["commits"]):
+            cdist["commits"] += 1
+            cdist["ai_commits" if cm["kind"] == "commit" else "unrelated_commits"] += 1
+            exp = {}
+            for f_, ids in cm["after"].items():
+                old_ids = set(cm["before"].get(f_, []))
+                for i, y in enumerate(ids, 1):
+                    a = author.get(y, "H")
+                    if a != "H" and y not in old_ids:
+                        exp.setdefault(f_, {}).setdefault(session_hash(TOOL, a), set()).add(i)
+                        recorded[y] = recorded.get(y, 0) + 1
+            got = {f_: {h: set(v) for h, v in hs.items()} for f_, hs in cm["note"].items()}
+            if any(f_ in pending_new and cm["before"].get(f_) == cm["after"].get(f_) for f_ in pending_new):
+                cdist["new_file_left_out_then_untouched_commit"] += 1
+            for f_ in x["final"]:
+                if f_ in NEW_FILES and cm["after"].get(f_) != x["final"][f_]:
+                    pending_new.add(f_)
+                else:
+                    pending_new.discard(f_)
+            if not cm["texts_ok"]:
+                fails.append(f"commit {j} does not contain the staged content")
+            if got != exp:
+                fails.append(f"commit {j} ({cm['kind']}): note {sorted((f_, sorted((h, sorted(v)) for h, v in hs.items())) for f_, hs in got.items())} "
+                             f"but the AI lines first contained in this commit are "
+                             f"{sorted((f_, sorted((h, sorted(v)) for h, v in hs.items())) for f_, hs in exp.items())}")
+            # known classes and model prediction, per file the commit changed
+            for f_, cf in cm["after"].items():
+                key = f"{x['idx']}:{j}:{f_}"
+                if key in cspec:
+                    fl = fields(cspec[key])
+                    classes |= classify_known(cm["before"].get(f_, []), cf, x["final"][f_],
+                                              {y: author.get(y, "H") for y in set(cm["before"].get(f_, [])) | set(cf) | set(x["final"][f_])},
+                                              fl["sc"][0] == 1, fl["nohidden"][0] == 1)
+                    pn, _ = parse_out(cspec[key])
+                    pn = {a: set(v) for a, v in pn.items() if v}
+                    if pn != got.get(f_, {}):
+                        sys_mism.append(f"carry#{x['idx']} commit {j} {f_}: model note {pn}; binary {got.get(f_, {})}")
+        for f_, ids in x["final"].items():
+            for y in ids:
+                if author.get(y, "H") != "H" and recorded.get(y, 0) != 1:
+                    fails.append(f"AI line {y} of {f_} is contained first in {recorded.get(y, 0)} commits (scenario bug)")
+        distinct.add(("carry", json.dumps(x["scenario"], sort_keys=True)))
+        if len(samples) < 8:
+            samples.append({"case": "carry", "steps": kinds, "files": sorted(x["final"]),
+                            "notes": [cm["note"] for cm in x["commits"]], "oracle_failures": fails})
+        if fails:
+            if classes:
+                n_known_fail += 1
+                known_seen.update(classes)
+            else:
+                violations.append((f"carry#{x['idx']} files={sorted(x['final'])} steps={kinds}: " + "; ".join(fails[:2]),
+                                   {"kind": "carry", **x}))
+        else:
+            n_pass += 1
+            n_carry_pass += 1
+    n_run += cdist["scenarios"]
+    sdist["carry"] = cdist
+
     if ctx.model_ok:
         obligations.append(("tie:system-level note+INITIAL equal the model's prediction from P,C,W and the ground truth",
                             not sys_mism, "; ".join(sys_mism[:3])))
@@ -754,7 +857,7 @@ def run(ctx):
         "violations": violations,
         "known_seen": sorted(known_seen),
         "searched": f"{len(cc)} line lists, {len(lc)} attribution lists, {len(cases)} in-process splits on real "
-                    f"repositories, {n_run} system-level partial-commit scenarios (2 commits each); "
+                    f"repositories, {n_run} system-level scenarios (partial commit + carry; splits over 2-4 commits by file and by hunk with unrelated commits in between); "
                     f"{len(mism)} in-process and {len(sys_mism)} system-level model/impl mismatches: "
                     + "; ".join([m[1] for m in mism[:3]] + sys_mism[:3]),
         "coverage": {
@@ -765,7 +868,9 @@ def run(ctx):
                     "of range, human); non-trivial = some non-human attribution and a non-empty diff, distinct by input. "
                     "system: 1-2 AI sessions (+ human inserts), hunk-wise partial staging, 0-2 unstaged edits "
                     "(insert/delete/modify at top/anywhere/bottom by a person or an AI), then a second commit; distinct by "
-                    "(P,C,W,authors)",
+                    "(P,C,W,authors). carry: AI work on 2-3 files (tracked and new untracked), split over 2-4 commits by file "
+                    "and by hunk, 0-2 unrelated events between commits (human commit / human edit / human checkpoint, in 2/5 "
+                    "of the scenarios also an unrelated AI checkpoint+commit); distinct by scenario",
             "samples": samples,
             "input_distribution": {"inprocess_kinds": dist, "system": sdist},
             "hypothesis_hit_rate": {"wf3": f"{n_wf}/{len(cases)}", "shift_consistent": f"{n_sc}/{n_wf}",
